@@ -120,6 +120,9 @@ def c16(quick):
         S.append((D(mode=mode, nj=2, pre=4, bs=1, inline=True, calls=[dict(n=6, cons="free")]), "random", rnd))
         S.append((D(mode=mode, nj=2, pre=2, bs=1, calls=[dict(n=4)]), "dfs", lim))
         S.append((D(mode=mode, nj=2, pre=2, bs=1, managed="per_call", calls=[dict(n=4, cons="leave"), dict(n=3, cons="leave"), dict(n=2)]), "dfs", lim))
+        # a timeout is set and never reached by any single wait, although the whole run lasts much longer
+        S.append((D(mode=mode, nj=2, pre=4, bs=1, timeout=0.04, calls=[dict(n=12), dict(n=3)]), "random", rnd))
+        S.append((D(mode=mode, nj=2, pre="all", bs=1, timeout=0.03, calls=[dict(n=9)]), "random", rnd))
         # warnings are errors (python -W error): the "exit early" warning raised while closing must not skip the abort
         S.append((D(mode=mode, nj=2, pre=2, bs=1, warn_error=True, calls=[dict(n=6, cons="close"), dict(n=3)]), "random", rnd))
         S.append((D(mode=mode, nj=2, pre=3, bs=1, warn_error=True, managed=True, calls=[dict(n=6, cons="close"), dict(n=3)]), "random", rnd))
@@ -250,7 +253,9 @@ def l3(which, quick):
         elif which == "C16":
             R += [dict(backend=b, mode=GEN, nj=2, pre=4, bs=1, n=8, order="reverse"),
                   dict(backend=b, mode=UNORD, nj=2, pre="2*n_jobs", bs=1, n=6, order="reverse"),
-                  dict(backend=b, mode=GEN, nj=2, pre=4, bs=1, n=8, order="inorder", closeat=2, calls=2)]
+                  dict(backend=b, mode=GEN, nj=2, pre=4, bs=1, n=8, order="inorder", closeat=2, calls=2),
+                  dict(backend=b, mode=GEN, nj=2, pre=4, bs=1, n=8, order="inorder", closeat=2, calls=2, close_in_other_thread=True),
+                  dict(backend=b, mode=UNORD, nj=2, pre=4, bs=1, n=8, order="reverse", closeat=1, calls=3, close_in_other_thread=True)]
             if not quick:
                 R += [dict(backend=b, mode=UNORD, nj=3, pre=6, bs=2, n=12, order=[5, 4, 1, 0, 9, 8], closeat=3, calls=2)]
         elif which == "C09":
